@@ -453,8 +453,8 @@ def run(pid, tier, prop=None):
     # free order explores k! schedules per container of k obligations: narrow inputs; the canonical schedule takes wider ones
     mcin_free = os.path.join(tdir, "%s-mcin-free.ndjson" % pid)
     mcin_canon = os.path.join(tdir, "%s-mcin-canon.ndjson" % pid)
-    nmc_free = mc_inputs_from_trace(t1, mcin_free, 7 if tier == "quick" else 9, 220 if tier == "quick" else 1200, 3 if tier == "quick" else 4)
-    nmc_canon = mc_inputs_from_trace(t1, mcin_canon, 9 if tier == "quick" else 16, 200 if tier == "quick" else 1500)
+    nmc_free = mc_inputs_from_trace(t1, mcin_free, 8 if tier == "quick" else 10, 500 if tier == "quick" else 2500, 3 if tier == "quick" else 4)
+    nmc_canon = mc_inputs_from_trace(t1, mcin_canon, 10 if tier == "quick" else 16, 300 if tier == "quick" else 2500)
     mc_runs = []
     states = transitions = 0
     violations = []
